@@ -306,7 +306,34 @@ fn resource_positions_program(rng: &mut Rng) -> String {
     )
 }
 
+/// Brace initialisers of every shape (empty, nested, surplus, elided) against every kind of target (scalar, vector, matrix, array,
+/// struct, array of structs), as local, static global and default argument
+fn initialiser_program(rng: &mut Rng) -> String {
+    const TARGETS: &[&str] = &["float x", "int x", "uint x", "bool x", "float2 x", "float3 x", "int4 x", "float2x2 x", "float x[2]", "float x[2][2]", "int x[3]", "S x", "S x[2]", "T x", "E x"];
+    const ATOMS: &[&str] = &["1", "2.0f", "true", "k", "{}", "{ }", "{{}}", "{ 1 }", "{{ 1 }}", "{ 1, 2 }", "{ {}, 1 }", "{ 1, {} }", "{ {1}, {2} }", "{ 1, 2, 3 }", "{{{ 1 }}}", "{ k, { k, k } }", "{ { 1, 2 }, { 3, 4 } }", "{ 1, { 2, { 3 } } }", "(S)0", "{ E::A }"];
+    let mut init = rng.pick(ATOMS).to_string();
+    // sometimes one more level around or next to it
+    match rng.below(5) {
+        0 => init = format!("{{ {} }}", init),
+        1 => init = format!("{{ {}, {} }}", init, rng.pick(ATOMS)),
+        2 => init = format!("{{ {}, {}, {} }}", rng.pick(ATOMS), init, rng.pick(ATOMS)),
+        _ => {}
+    }
+    let target = *rng.pick(TARGETS);
+    let pre = "struct S { float a; int b; };\nstruct T { S s; float2 v; float w[2]; };\nenum E { A, B };\nstatic const int k = 3;\n";
+    match rng.below(5) {
+        0 => format!("{}static {} = {};\n", pre, target, init),
+        1 => format!("{}static const {} = {};\nvoid f() {{ x; }}\n", pre, target, init),
+        2 => format!("{}void f() {{ {} = {}; x; }}\n", pre, target, init),
+        3 => format!("{}void f() {{ for ({} = {}; false; ) {{ }} }}\n", pre, target, init),
+        _ => format!("{}struct U {{ {}; }};\nvoid f() {{ U u = {{ {} }}; u; }}\n", pre, target, init),
+    }
+}
+
 fn grammar_case(rng: &mut Rng) -> Case {
+    if rng.chance(1, 8) {
+        return single("grammar:initialisers", initialiser_program(rng));
+    }
     if rng.chance(1, 6) {
         return single("grammar:resource-positions", resource_positions_program(rng));
     }
